@@ -201,7 +201,19 @@ pub(super) fn split_off_back(
 
     #[cfg(prql_verif)]
     crate::debug::verif::emit("split", || {
-        serde_json::json!({"input": verif_input, "output": verif_output,
+        // columns each relation instance of the pipeline provides
+        let instances = verif_input
+            .iter()
+            .filter_map(|t| match t {
+                SqlTransform::From(r) | SqlTransform::Join { with: r, .. } => Some(r),
+                _ => None,
+            })
+            .map(|r| {
+                let cols = &ctx.relation_instances[r].table_ref.columns;
+                (r, cols.iter().map(|(_, c)| *c).collect_vec())
+            })
+            .collect_vec();
+        serde_json::json!({"input": verif_input, "output": verif_output, "instances": instances,
             "preceding": remaining_pipeline, "atomic": curr_pipeline_rev})
         .to_string()
     });
